@@ -43,6 +43,9 @@ pub(crate) struct Connection {
     /// Remote peer ID.
     peer: PeerId,
 
+    /// Identifier of the notification stream, see `NotificationSink`.
+    stream_id: usize,
+
     /// Inbound substreams for receiving notifications.
     inbound: Substream,
 
@@ -57,7 +60,7 @@ pub(crate) struct Connection {
     conn_closed_tx: Sender<PeerId>,
 
     /// TX channel for sending notifications.
-    notif_tx: PollSender<(PeerId, BytesMut)>,
+    notif_tx: PollSender<(PeerId, usize, BytesMut)>,
 
     /// Receiver for asynchronously sent notifications.
     async_rx: Receiver<Vec<u8>>,
@@ -87,11 +90,12 @@ impl Connection {
     /// Create new [`Connection`].
     pub(crate) fn new(
         peer: PeerId,
+        stream_id: usize,
         inbound: Substream,
         outbound: Substream,
         event_handle: NotificationEventHandle,
         conn_closed_tx: Sender<PeerId>,
-        notif_tx: Sender<(PeerId, BytesMut)>,
+        notif_tx: Sender<(PeerId, usize, BytesMut)>,
         async_rx: Receiver<Vec<u8>>,
         sync_rx: Receiver<Vec<u8>>,
     ) -> (Self, oneshot::Sender<()>) {
@@ -101,6 +105,7 @@ impl Connection {
             Self {
                 rx,
                 peer,
+                stream_id,
                 sync_rx,
                 async_rx,
                 inbound,
@@ -157,7 +162,7 @@ impl Connection {
                     notify: NotifyProtocol::No,
                 }) => return self.close_connection(NotifyProtocol::No).await,
                 Some(ConnectionEvent::NotificationReceived { notification }) => {
-                    if let Err(_) = self.notif_tx.send_item((self.peer, notification)) {
+                    if let Err(_) = self.notif_tx.send_item((self.peer, self.stream_id, notification)) {
                         return self.close_connection(NotifyProtocol::Yes).await;
                     }
                 }
